@@ -10,6 +10,7 @@ import (
 	"math"
 	"os"
 	"strconv"
+	"strings"
 )
 
 type vpReplayVal struct {
@@ -19,16 +20,70 @@ type vpReplayVal struct {
 }
 
 type vpReplayDoc struct {
-	Harness string        `json:"harness"`
-	Kind    string        `json:"kind"`
-	Message string        `json:"message"`
-	Vector  []vpReplayVal `json:"vector"`
+	Harness  string        `json:"harness"`
+	Kind     string        `json:"kind"`
+	Message  string        `json:"message"`
+	Vector   []vpReplayVal `json:"vector"`
+	Thorough bool          `json:"thorough"`
+	Enable   []string      `json:"enable"`
+	Attempts int           `json:"native_attempts"`
 }
 
 var (
 	vpVec    []vpReplayVal
 	vpVecPos int
+
+	// vpTierThorough: the tier of the symbolic run being replayed (vpBound / vpThorough follow it).
+	vpTierThorough = true
+	// vpNativeOverride: /repo functions currently redirected to their harness stub. The wrappers
+	// consulting it exist only in the native overlay build (engine/nativeov.go).
+	vpNativeOverride = map[string]bool{}
+	// vpAssertLog: messages of the assertions evaluated by the current native run.
+	vpAssertLog []string
 )
+
+func vpSetup(vec []vpReplayVal, thorough bool, enable []string) {
+	vpVec, vpVecPos, vpTierThorough, vpAssertLog = vec, 0, thorough, nil
+	vpNativeOverride = map[string]bool{}
+	for _, k := range enable {
+		vpNativeOverride[k] = true
+	}
+}
+
+type vpWitness struct {
+	Harness  string        `json:"harness"`
+	Vector   []vpReplayVal `json:"vector"`
+	Thorough bool          `json:"thorough"`
+	Enable   []string      `json:"enable"`
+}
+
+// vpRunWitnesses executes every witness (a complete symbolic path turned into concrete inputs by
+// the solver) against the native build and reports, per witness, the verdict, the sequence of
+// assertions evaluated and the number of nondets consumed; the engine compares these with what
+// the symbolic path did.
+func vpRunWitnesses(file string, table map[string]func()) []string {
+	b, err := os.ReadFile(file)
+	if err != nil {
+		return []string{`{"index":-1,"result":"error: cannot read witness file"}`}
+	}
+	var ws []vpWitness
+	if err := json.Unmarshal(b, &ws); err != nil {
+		return []string{`{"index":-1,"result":"error: bad witness file"}`}
+	}
+	var out []string
+	for i, w := range ws {
+		res := "error: unknown harness"
+		if h := table[w.Harness]; h != nil {
+			res = vpRunOne(w.Vector, w.Thorough, w.Enable, "ASSERT", h)
+		}
+		if vpAssertLog == nil {
+			vpAssertLog = []string{}
+		}
+		j, _ := json.Marshal(map[string]interface{}{"index": i, "result": res, "asserts": vpAssertLog, "consumed": vpVecPos})
+		out = append(out, string(j))
+	}
+	return out
+}
 
 type vpAssertFailed struct{ msg string }
 type vpAssumeFailed struct{}
@@ -62,7 +117,17 @@ func vpRunReplay(file string, h func()) (res string) {
 	if err := json.Unmarshal(b, &doc); err != nil {
 		return "error: " + err.Error()
 	}
-	vpVec, vpVecPos = doc.Vector, 0
+	// A path through a select with several ready cases is not determined by the vector (Go picks
+	// at random): repeat until the run takes the failing branch. One reproduction is a real failure.
+	res = vpRunOne(doc.Vector, doc.Thorough, doc.Enable, doc.Kind, h)
+	for i := 1; i < doc.Attempts && !strings.HasPrefix(res, "violated"); i++ {
+		res = vpRunOne(doc.Vector, doc.Thorough, doc.Enable, doc.Kind, h)
+	}
+	return res
+}
+
+func vpRunOne(vec []vpReplayVal, thorough bool, enable []string, kind string, h func()) (res string) {
+	vpSetup(vec, thorough, enable)
 	defer func() {
 		if r := recover(); r != nil {
 			switch x := r.(type) {
@@ -73,10 +138,10 @@ func vpRunReplay(file string, h func()) (res string) {
 			case vpVectorExhausted:
 				res = "vector-exhausted (native run consumed more nondets than the symbolic path)"
 			default:
-				if doc.Kind == "PANIC" {
+				if kind == "PANIC" {
 					res = fmt.Sprintf("violated: run-time panic: %v", r)
 				} else {
-					res = fmt.Sprintf("panic (unexpected for %s): %v", doc.Kind, r)
+					res = fmt.Sprintf("panic (unexpected for %s): %v", kind, r)
 				}
 			}
 		}
@@ -138,14 +203,20 @@ func vpAssume(c bool) {
 }
 
 func vpAssert(c bool, msg string) {
+	vpAssertLog = append(vpAssertLog, msg)
 	if !c {
 		panic(vpAssertFailed{msg})
 	}
 }
 
-// vpBound selects a bound by tier (the replay always uses the larger one: vectors carry lengths).
-func vpBound(quick, thorough int) int { return thorough }
-func vpThorough() bool                { return true }
+// vpBound selects a bound by tier; natively the tier is the one of the run being replayed.
+func vpBound(quick, thorough int) int {
+	if vpTierThorough {
+		return thorough
+	}
+	return quick
+}
+func vpThorough() bool { return vpTierThorough }
 
 // vpSymbolic is true under the symbolic executor and false natively.
 func vpSymbolic() bool { return false }
